@@ -275,7 +275,7 @@ func init() {
 		e["r2"] = ymd(date.FromTime(t.In(time.FixedZone("y", off2))))
 		first := date.FromTime(t)
 		tm := first.Time()
-		e["rt"] = []int{tm.Year(), int(tm.Month()), tm.Day(), tm.Hour()*3600 + tm.Minute()*60 + tm.Second(), b2i(tm.Location() == time.UTC)}
+		e["rt"] = []int{clamp32(tm.Year()), int(tm.Month()), tm.Day(), tm.Hour()*3600 + tm.Minute()*60 + tm.Second(), b2i(tm.Location() == time.UTC)}
 		return e
 	}
 }
